@@ -3715,8 +3715,10 @@ class Score(object):
         self.parts[index] = part
 
     def __iter__(self) -> Iterator[Part]:
+        # a new, independent iterator per loop: a cursor stored on the
+        # score makes nested or interleaved iterations interfere
         self.iter_idx = 0
-        return self
+        return iter(self.parts)
 
     def __next__(self) -> Part:
         if self.iter_idx == len(self.parts):
